@@ -60,7 +60,7 @@ type c10Case struct {
 }
 
 var c10KeyGen = rapid.Custom(func(t *rapid.T) []byte {
-	n := 1 + kvh.U(t, 4, "klen")
+	n := 1 + kvh.U(t, 5, "klen")
 	alphabet := []byte{'a', 'b', 'c', 0x00, 0xff, 'a', 'b'}
 	k := make([]byte, n)
 	for i := range k {
@@ -74,6 +74,9 @@ func c10IndexCase(t *rapid.T, st *kvh.Stats) {
 	c.Index = int8(1 + kvh.U(t, 3, "index"))
 	c.Shards = kvh.Pick(t, []int{1, 2, 3, 16, 16, 2, 1024}, "shards")
 	nk := kvh.U(t, 41, "nkeys")
+	if kvh.Pct(t, 6, "manykeys") {
+		nk = 150 + kvh.U(t, 250, "nmany") // deep shards: B-tree nodes split beyond 65 items
+	}
 	seen := map[string]bool{}
 	for i := 0; i < nk; i++ {
 		k := c10KeyGen.Draw(t, "key")
